@@ -99,6 +99,8 @@ def main():
         if not os.path.isdir(os.path.join(V, "harness", pid)):
             rows.append((name, pid, "no-check", [], 0)); continue
         res, viol, secs = (run_apply if apply else run_overlay)(name, pid, tier, patch)
+        if res == "missed" and meta.get("status_on_repaired_tree"):
+            res = "superseded"  # after a later fix: in /repo the change no longer breaks the property (see meta.json)
         rows.append((name, pid, res, viol, secs))
         meta.setdefault("property", pid)
         meta.setdefault("name", name)
@@ -109,7 +111,7 @@ def main():
         meta["detected_by"] = hist
         json.dump(meta, open(mp, "w"), indent=1)
         print(f"{name:40s} {pid} {tier:8s} {res:22s} {secs:5.0f}s {viol[0][:150] if viol else ''}", flush=True)
-    bad = [r for r in rows if r[2] not in ("caught", "does-not-apply")]
+    bad = [r for r in rows if r[2] not in ("caught", "does-not-apply", "superseded")]
     print(f"\n{len(rows)} seeded changes: {sum(r[2]=='caught' for r in rows)} caught, {len(bad)} not caught: {[r[0] for r in bad]}")
 
 if __name__ == "__main__":
